@@ -1602,8 +1602,11 @@ class InitialBHPopulation:
 
         Ns = sol.y[:nbin_MS]
 
-        As = Ns / Pk(alphas, 1, *massbins.bins.MS)
-        Ms = As * Pk(alphas, 2, *massbins.bins.MS)
+        # Surviving stars only fill the turn-off bin up to the turn-off mass
+        bins_MS = massbins.turned_off_bins(compute_mto(final_age))
+
+        As = Ns / Pk(alphas, 1, *bins_MS)
+        Ms = As * Pk(alphas, 2, *bins_MS)
 
         # Stellar losses
         out.Ns_lost = init_N.MS.sum() - Ns.sum()
